@@ -53,7 +53,7 @@ Definition raw_free (c : cfg) (l : list N) : bool :=
 Definition raw_class (k : case) : bool := raw_free (k_cfg k) (fns k).
 
 (* "consistently across these commands" *)
-Definition ok_agree (k : case) : bool :=
+Definition ok_agree_gen (with_raw : bool) (k : case) : bool :=
   let c := k_cfg k in
   let pf := plt_free c (fns k) in
   let shown := map nt_n (o_chrome k) in
@@ -64,7 +64,8 @@ Definition ok_agree (k : case) : bool :=
   && (negb (no_range c) || list_eqb N.eqb (report_of (k_nfun k) (map n_ev shown) []) (o_report k))
   && list_eqb tri_eqb (graph_of (map n_ev shown)) (o_graph k)
   && list_eqb tri_eqb (graph_of (map n_ev shown)) (o_flame k)
-  && (negb (raw_class k && no_range c) || list_eqb nt_eqb (map rt_nt (o_raw k)) (o_chrome k)).
+  && (negb (with_raw && raw_class k && no_range c) || list_eqb nt_eqb (map rt_nt (o_raw k)) (o_chrome k)).
+Definition ok_agree (k : case) : bool := ok_agree_gen true k.
 
 (* "selects the calls defined by the documented semantics" for the option class of the theorems *)
 Definition spec_class (k : case) : bool := no_switch (k_cfg k) (fns k) && no_range (k_cfg k).
@@ -256,3 +257,32 @@ Definition ok_switch (k : case) : bool :=
   negb (no_range c && loc_free c (fns k) && sw_class c (fns k) (fheightZ (k_forest k)))
   || (list_eqb n_eqb (select_sw c (k_forest k)) (map nt_n (o_chrome k))
       && (negb (plt_free c (fns k)) || list_eqb n_eqb (select_sw c (k_forest k)) (map nd_n (o_replay k)))).
+
+(* ---------------------------------------------------------------- -Z SIZE / -T f@size=N (analysis time only) *)
+(* The fstack model has no symbol sizes; the size filter is tied at the level of the documented semantics:
+   the calls shown by the commands must be select of the forest with the small functions spliced out (select_z),
+   and the commands must agree with each other.  The raw dump is left out: it reads the data files without the
+   look-ahead list, where the size filter lives (same root as the known finding about -t/-C/time=). *)
+Record zcase := {
+  z_case : case;                  (* options other than the size filter, forest, outputs *)
+  z_sizes : list (N * N);         (* symbol sizes *)
+  z_zs : N;                       (* -Z SIZE, 0 = not given *)
+  z_ztr : list (N * N)            (* -T f@size=N *)
+}.
+Definition z_szof (k : zcase) : N -> N := assoc 128%N (z_sizes k).
+Definition z_ztrf (k : zcase) : N -> option N := assoc None (map (fun p => (fst p, Some (snd p))) (z_ztr k)).
+Definition z_select (k : zcase) : list vev :=
+  select_z (k_cfg (z_case k)) (z_szof k) (z_ztrf k) (z_zs k) (k_forest (z_case k)).
+Definition ok_size (k : zcase) : bool :=
+  let kk := z_case k in
+  let c := k_cfg kk in
+  negb (spec_class kk)
+  || (let sel := z_select k in
+      list_eqb nt_eqb (map ob_nt sel) (o_chrome kk)
+      && (negb (plt_free c (fns kk)) || list_eqb nd_eqb (map ob_nd sel) (o_replay kk))
+      && list_eqb N.eqb (report_of (k_nfun kk) sel []) (o_report kk)
+      && list_eqb tri_eqb (graph_of sel) (o_graph kk)).
+Definition ok_size_agree (k : zcase) : bool := ok_agree_gen false (z_case k).
+(* the size filter hides something in this case *)
+Definition z_hides (k : zcase) : bool :=
+  negb (Nat.eqb (length (z_select k)) (length (select (k_cfg (z_case k)) (k_forest (z_case k))))).
